@@ -57,19 +57,19 @@ def updStep (lv : View) (xid cid : Nat) (g : List Value → Bool) (f : List Valu
     per statement by evaluation of its expressions) -/
 structure UpdSem (env : Env) (t : Table) (alias a : String) (sets : List SetItem) (wher : Option Expr) (returning : List SelItem)
     (g : List Value → Bool) (f : List Value → List Value) (accStep : DmlAcc → Ver → DmlAcc) (Q : Ver → List PendingTrig)
-    (P : Ver → Prop) : Prop where
-  hguard : ∀ r, P r → ∀ m s, (whereHolds (m + 1) env wher [rowScopeOf t a r]).exec s = (.ok (g r.vals), s)
-  hsets : ∀ r, P r → g r.vals = true → ∀ m rows s,
-    (applySets (m + 1) { env with locals := [rowScopeOf t a r] } (t.withRows rows) r.vals sets).exec s =
+    (P : Ver → Prop) (Sok : St → Prop := fun _ => True) : Prop where
+  hguard : ∀ r, P r → ∀ m s, Sok s → (whereHolds (m + 2) env wher [rowScopeOf t a r]).exec s = (.ok (g r.vals), s)
+  hsets : ∀ r, P r → g r.vals = true → ∀ m rows s, Sok s →
+    (applySets (m + 3) { env with locals := [rowScopeOf t a r] } (t.withRows rows) r.vals sets).exec s =
       (.ok (f r.vals), s)
-  hchecks : ∀ r, P r → g r.vals = true → ∀ rows s, (checkConstraints (t.withRows rows) (f r.vals)).exec s = (.ok (), s)
-  hfks : ∀ r, P r → g r.vals = true → ∀ rows s, (checkForeignKeys (t.withRows rows) (f r.vals)).exec s = (.ok (), s)
+  hchecks : ∀ r, P r → g r.vals = true → ∀ rows s, Sok s → (checkConstraints (t.withRows rows) (f r.vals)).exec s = (.ok (), s)
+  hfks : ∀ r, P r → g r.vals = true → ∀ rows s, Sok s → (checkForeignKeys (t.withRows rows) (f r.vals)).exec s = (.ok (), s)
   hbefore : t.triggers.filter (fun tr => tr.timing == .before && tr.event == .update) = []
-  hafter : ∀ r, P r → g r.vals = true → ∀ m rows s,
-    (queueAfter (m + 1) (t.withRows rows) .update (sets.map (fun si => match si with | .mk c _ => c)) (some (f r.vals)) (some r.vals)).exec s =
+  hafter : ∀ r, P r → g r.vals = true → ∀ m rows s, Sok s →
+    (queueAfter (m + 3) (t.withRows rows) .update (sets.map (fun si => match si with | .mk c _ => c)) (some (f r.vals)) (some r.vals)).exec s =
       (.ok (), s.addQ (Q r))
-  hacc : ∀ r, P r → g r.vals = true → ∀ m rows s a,
-    (accReturning (m + 1) env (t.withRows rows) alias (f r.vals) [] returning a).exec s = (.ok (accStep a r), s)
+  hacc : ∀ r, P r → g r.vals = true → ∀ m rows s a, Sok s →
+    (accReturning (m + 3) env (t.withRows rows) alias (f r.vals) [] returning a).exec s = (.ok (accStep a r), s)
 
 
 theorem firstJoinMatch_single (n : Nat) (env : Env) (wher : Option Expr) (tsc : Scope) (s : St) (b : Bool)
@@ -83,18 +83,19 @@ theorem firstJoinMatch_single (n : Nat) (env : Env) (wher : Option Expr) (tsc : 
 theorem exec_updateRowStep_gen (n : Nat) (env : Env) (full alias a : String) (sets : List SetItem) (wher : Option Expr)
     (returning : List SelItem) (t : Table) (g : List Value → Bool) (f : List Value → List Value)
     (accStep : DmlAcc → Ver → DmlAcc) (Q : Ver → List PendingTrig) (P : Ver → Prop)
-    (sem : UpdSem env t alias a sets wher returning g f accStep Q P)
-    (s : St) (hs : TxState s) (rows : List Ver) (hT : s.w.table? full = some (t.withRows rows)) (hname : t.name = full)
+    (Sok : St → Prop) (hSokT : ∀ s t, Sok s → Sok (s.withTable t)) (hSokQ : ∀ s q, Sok s → Sok (s.addQ q))
+    (sem : UpdSem env t alias a sets wher returning g f accStep Q P Sok)
+    (s : St) (hs : TxState s) (hS : Sok s) (rows : List Ver) (hT : s.w.table? full = some (t.withRows rows)) (hname : t.name = full)
     (r : Ver) (hr : r ∈ rows) (hv : r.visible (latestView s.w s.xid) = true) (hP : P r)
     (hinj : RidInj (latestView s.w s.xid) rows)
     (hnc : g r.vals = true → (findConflict (t.withRows rows) t.uniques (f r.vals) (some r.rid)).exec s = (.ok none, s))
     (acc : DmlAcc) :
-    (updateRowStep (n + 3) env full alias sets [[]] wher returning (rowScopeOf t a r) acc).exec s =
+    (updateRowStep (n + 4) env full alias sets [[]] wher returning (rowScopeOf t a r) acc).exec s =
       (if g r.vals then
         (.ok (accStep acc r), (s.withTable (t.withRows (updStep (latestView s.w s.xid) s.xid s.cid g f rows r))).addQ (Q r))
        else (.ok acc, s)) := by
   rw [updateRowStep]
-  have hfj := firstJoinMatch_single n env wher (rowScopeOf t a r) s (g r.vals) (sem.hguard r hP n s)
+  have hfj := firstJoinMatch_single (n + 1) env wher (rowScopeOf t a r) s (g r.vals) (sem.hguard r hP n s hS)
   simp only [exec_bind, hfj]
   cases hg : g r.vals with
   | false => simp
@@ -103,7 +104,7 @@ theorem exec_updateRowStep_gen (n : Nat) (env : Env) (full alias a : String) (se
     have hsrc : (rowScopeOf t a r).src = some (t.name, r.rid) := rfl
     have hsc : ({ alias := (rowScopeOf t a r).alias, cols := (rowScopeOf t a r).cols, vals := r.vals,
                   src := some (t.name, r.rid) } : Scope) = rowScopeOf t a r := rfl
-    have hwh := sem.hguard r hP (n + 1) s
+    have hwh := sem.hguard r hP (n + 1) s hS
     rw [hg] at hwh
     have hT2 : (s.withTable (t.withRows (updStep (latestView s.w s.xid) s.xid s.cid g f rows r))).w.table? full =
         some (t.withRows (updStep (latestView s.w s.xid) s.xid s.cid g f rows r)) := by
@@ -117,8 +118,8 @@ theorem exec_updateRowStep_gen (n : Nat) (env : Env) (full alias a : String) (se
     have hrest : ∀ (ok : Bool), ok = true →
         ((if (!ok) = true then pure acc
           else do
-            let newVals ← applySets (n + 2) { env with locals := [rowScopeOf t a r] } (t.withRows rows) r.vals sets
-            let __do_lift ← fireBefore (n + 2) (t.withRows rows) TrigEvent.update (sets.map (fun x => match x with | SetItem.mk c _ => c)) (some newVals) (some r.vals)
+            let newVals ← applySets (n + 3) { env with locals := [rowScopeOf t a r] } (t.withRows rows) r.vals sets
+            let __do_lift ← fireBefore (n + 3) (t.withRows rows) TrigEvent.update (sets.map (fun x => match x with | SetItem.mk c _ => c)) (some newVals) (some r.vals)
             match __do_lift with
             | none => pure acc
             | some newVals => do
@@ -131,14 +132,20 @@ theorem exec_updateRowStep_gen (n : Nat) (env : Env) (full alias a : String) (se
                 checkForeignKeys t newVals
                 updateVersion full r.rid newVals
                 let t ← getTable full
-                queueAfter (n + 2) t TrigEvent.update (sets.map (fun x => match x with | SetItem.mk c _ => c)) (some newVals) (some r.vals)
-                accReturning (n + 2) env t alias newVals [] returning acc) : M DmlAcc).exec s =
+                queueAfter (n + 3) t TrigEvent.update (sets.map (fun x => match x with | SetItem.mk c _ => c)) (some newVals) (some r.vals)
+                accReturning (n + 3) env t alias newVals [] returning acc) : M DmlAcc).exec s =
           (.ok (accStep acc r), (s.withTable (t.withRows (updStep (latestView s.w s.xid) s.xid s.cid g f rows r))).addQ (Q r)) := by
       intro ok hok
       subst hok
+      have h1 := fun m rows' => sem.hsets r hP hg m rows' s hS
+      have h2 := fun rows' => sem.hchecks r hP hg rows' s hS
+      have h3 := fun rows' => sem.hfks r hP hg rows' s hS
+      have hS2 := hSokT s (t.withRows (updStep (latestView s.w s.xid) s.xid s.cid g f rows r)) hS
+      have h4 := fun m rows' => sem.hafter r hP hg m rows' _ hS2
+      have h5 := fun m rows' a' => sem.hacc r hP hg m rows' _ a' (hSokQ _ (Q r) hS2)
       simp only [Bool.not_true, Bool.false_eq_true, if_false, exec_bind, withRows_uniques,
-        sem.hsets r hP hg, exec_fireBefore_none _ (t.withRows rows) .update (by simp) _ _ _ _ (by simpa using sem.hbefore),
-        exec_getTable hT, sem.hchecks r hP hg, hnc hg, sem.hfks r hP hg, hupd, exec_getTable hT2, sem.hafter r hP hg, sem.hacc r hP hg]
+        h1, exec_fireBefore_none _ (t.withRows rows) .update (by simp) _ _ _ _ (by simpa using sem.hbefore),
+        exec_getTable hT, h2, hnc hg, h3, hupd, exec_getTable hT2, h4, h5]
     cases (r.vals == (rowScopeOf t a r).vals) with
     | true =>
       simp only [if_true, hsc, List.append_nil, exec_bind, exec_pure]
@@ -209,14 +216,15 @@ theorem RidInj_updStep (w : World) (xid cid : Nat) (hx : xid ≠ 0) (hc : cid < 
 theorem exec_updLoop (n : Nat) (env : Env) (full alias a : String) (sets : List SetItem) (wher : Option Expr)
     (returning : List SelItem) (t : Table) (g : List Value → Bool) (f : List Value → List Value)
     (accStep : DmlAcc → Ver → DmlAcc) (Q : Ver → List PendingTrig) (P : Ver → Prop)
-    (sem : UpdSem env t alias a sets wher returning g f accStep Q P)
-    (s0 : St) (hs : TxState s0) (rows0 : List Ver) (hT0 : s0.w.table? full = some (t.withRows rows0)) (hname : t.name = full)
+    (Sok : St → Prop) (hSokT : ∀ s t, Sok s → Sok (s.withTable t)) (hSokQ : ∀ s q, Sok s → Sok (s.addQ q))
+    (sem : UpdSem env t alias a sets wher returning g f accStep Q P Sok)
+    (s0 : St) (hs : TxState s0) (hS0 : Sok s0) (rows0 : List Ver) (hT0 : s0.w.table? full = some (t.withRows rows0)) (hname : t.name = full)
     (Inv : List Ver → Prop) (hI : UpdInv t g f (latestView s0.w s0.xid) s0.xid s0.cid P Inv) :
     ∀ (ts : List Ver) (rows : List Ver) (acc : DmlAcc) (q : List PendingTrig),
       (∀ r ∈ ts, r ∈ rows ∧ r.visible (latestView s0.w s0.xid) = true ∧ P r) → (ts.map (·.rid)).Nodup →
       RidInj (latestView s0.w s0.xid) rows → Inv rows →
       ((ts.map (rowScopeOf t a)).foldlM (fun acc tsc =>
-          updateRowStep (n + 3) env full alias sets [[]] wher returning tsc acc) acc).exec ((s0.withTable (t.withRows rows)).addQ q) =
+          updateRowStep (n + 4) env full alias sets [[]] wher returning tsc acc) acc).exec ((s0.withTable (t.withRows rows)).addQ q) =
         (.ok (updAcc g accStep acc ts),
          (s0.withTable (t.withRows (updRun (latestView s0.w s0.xid) s0.xid s0.cid g f rows ts))).addQ (q ++ updQ g Q ts)) := by
   intro ts
@@ -230,8 +238,8 @@ theorem exec_updLoop (n : Nat) (env : Env) (full alias a : String) (sets : List 
     have hT : ((s0.withTable (t.withRows rows)).addQ q).w.table? full = some (t.withRows rows) := by
       have := withTable_table? s0 (t.withRows rows0) (t.withRows rows) (by rw [withRows_name, hname]; exact hT0)
       simpa [hname] using this
-    have hstep := exec_updateRowStep_gen n env full alias a sets wher returning t g f accStep Q P sem
-      ((s0.withTable (t.withRows rows)).addQ q) hsT rows hT hname r hr (by simpa using hv) hP (by simpa using hinj)
+    have hstep := exec_updateRowStep_gen n env full alias a sets wher returning t g f accStep Q P Sok hSokT hSokQ sem
+      ((s0.withTable (t.withRows rows)).addQ q) hsT (hSokQ _ q (hSokT _ _ hS0)) rows hT hname r hr (by simpa using hv) hP (by simpa using hinj)
       (fun hg => hI.noConflict rows r hinv hr hv hP hg _ hsT (by simp) (by simp)) acc
     simp only [addQ_w, withTable_latestView, addQ_xid, withTable_xid, addQ_cid, withTable_cid] at hstep
     simp only [List.map_cons, exec_foldlM_cons, hstep]
@@ -297,18 +305,19 @@ def protoReturning (returning : List SelItem) : List SelItem :=
 theorem exec_execUpdate_gen (n : Nat) (env : Env) (schema table full alias a : String) (sets : List SetItem) (wher : Option Expr)
     (returning : List SelItem) (t : Table) (g : List Value → Bool) (f : List Value → List Value)
     (accStep : DmlAcc → Ver → DmlAcc) (Q : Ver → List PendingTrig) (P : Ver → Prop)
-    (sem : UpdSem env t alias a sets wher returning g f accStep Q P)
-    (s : St) (hs : TxState s) (rows : List Ver) (hT : s.w.table? full = some (t.withRows rows)) (hname : t.name = full)
+    (Sok : St → Prop) (hSokT : ∀ s t, Sok s → Sok (s.withTable t)) (hSokQ : ∀ s q, Sok s → Sok (s.addQ q))
+    (sem : UpdSem env t alias a sets wher returning g f accStep Q P Sok)
+    (s : St) (hs : TxState s) (hS : Sok s) (rows : List Ver) (hT : s.w.table? full = some (t.withRows rows)) (hname : t.name = full)
     (hq : (qualify schema table).exec s = (.ok full, s)) (ha : a = if alias.isEmpty then table else alias)
     (hfresh : Fresh s.xid s.cid rows)
     (hnd : ((rows.filter (fun r => r.visible (latestView s.w s.xid))).map (·.rid)).Nodup)
     (hP : ∀ r ∈ rows, r.visible (latestView s.w s.xid) = true → P r)
     (Inv : List Ver → Prop) (hI : UpdInv t g f (latestView s.w s.xid) s.xid s.cid P Inv) (hinv : Inv rows)
     (protoCols : List String)
-    (hproto : returning.isEmpty = false → ∀ s', ∃ pv, (evalReturning (n + 3) env (t.withRows
+    (hproto : returning.isEmpty = false → ∀ s', ∃ pv, (evalReturning (n + 4) env (t.withRows
         (updRun (latestView s.w s.xid) s.xid s.cid g f rows (rows.filter (fun r => r.visible (latestView s.w s.xid))).reverse))
         alias (t.cols.map (fun _ => Value.null)) [] (protoReturning returning)).exec s' = (.ok (protoCols, pv), s')) :
-    (execUpdate (n + 4) env schema table alias sets [] wher returning).exec s =
+    (execUpdate (n + 5) env schema table alias sets [] wher returning).exec s =
       (let ts := (rows.filter (fun r => r.visible (latestView s.w s.xid))).reverse
        let acc := updAcc g accStep {} ts
        (.ok { rel := { cols := if acc.retCols.isEmpty && !returning.isEmpty then protoCols else acc.retCols, rows := acc.retRows },
@@ -333,13 +342,13 @@ theorem exec_execUpdate_gen (n : Nat) (env : Env) (schema table full alias a : S
     exact ⟨this.1, this.2, hP r this.1 this.2⟩
   have hndr : (((rows.filter (fun r => r.visible (latestView s.w s.xid))).reverse).map (·.rid)).Nodup := by
     rw [List.map_reverse]; exact nodup_reverse' _ hnd
-  have hloop := exec_updLoop n env full alias a sets wher returning t g f accStep Q P sem s hs rows hT hname Inv hI
+  have hloop := exec_updLoop n env full alias a sets wher returning t g f accStep Q P Sok hSokT hSokQ sem s hs hS rows hT hname Inv hI
     _ rows {} [] hts hndr hinj hinv
   rw [hself, addQ_nil] at hloop
   have hT2 := withTable_table? s (t.withRows rows) (t.withRows (updRun (latestView s.w s.xid) s.xid s.cid g f rows
       (rows.filter (fun r => r.visible (latestView s.w s.xid))).reverse)) (by rw [withRows_name, hname]; exact hT)
   rw [execUpdate]
-  have hfl : (evalFromList (n + 3) env [] [[]]).exec s = (.ok [[]], s) := by
+  have hfl : (evalFromList (n + 4) env [] [[]]).exec s = (.ok [[]], s) := by
     rw [evalFromList]
     · rfl
     · intro h; omega
@@ -354,7 +363,7 @@ theorem exec_execUpdate_gen (n : Nat) (env : Env) (schema table full alias a : S
   | true =>
     have hre : returning.isEmpty = false := by
       cases h : returning.isEmpty <;> simp_all
-    have hps : ∀ s', (protoScopes (n + 3) env []).exec s' = (.ok [], s') := by
+    have hps : ∀ s', (protoScopes (n + 4) env []).exec s' = (.ok [], s') := by
       intro s'
       rw [protoScopes]
       · rfl
